@@ -1,10 +1,12 @@
 package main
 
 import (
+	"fmt"
 	"go/ast"
 	"go/constant"
 	"go/token"
 	"go/types"
+	"regexp/syntax"
 	"sort"
 	"strings"
 
@@ -218,4 +220,65 @@ func constString(v ssa.Value) (string, bool) {
 		return "", false
 	}
 	return constant.StringVal(c.Value), true
+}
+
+func constantInt(i int64) constant.Value { return constant.MakeInt64(i) }
+
+// checkPatternsNonNullable: the package-level regexp patterns of the selector language cannot
+// match the empty string (the code indexes match[0]); the pattern is analysed as data with
+// regexp/syntax, nothing is matched.
+func (c *Ctx) checkPatternsNonNullable() {
+	pk := c.P.All[modPath]
+	if pk == nil {
+		return
+	}
+	n := 0
+	sc := pk.Types.Scope()
+	for _, name := range sc.Names() {
+		k, ok := sc.Lookup(name).(*types.Const)
+		if !ok || !strings.HasSuffix(name, "PATTERN") || k.Val().Kind() != constant.String {
+			continue
+		}
+		n++
+		pat := constant.StringVal(k.Val())
+		re, err := syntax.Parse(pat, syntax.Perl)
+		if err != nil {
+			c.Fail("c09.total", "pattern/"+name, "-", "the selector pattern does not parse: "+err.Error())
+			continue
+		}
+		c.Check(!nullable(re), "c09.total", "pattern/"+name, "-", "every match of the pattern is non-empty (match[0] is safe)", "the pattern "+name+" can match the empty string: match[0] on such a match panics")
+	}
+	if n < 3 {
+		c.Unknown("c09.total", "patterns", "-", fmt.Sprintf("only %d selector patterns found", n))
+	}
+}
+
+func nullable(re *syntax.Regexp) bool {
+	switch re.Op {
+	case syntax.OpEmptyMatch, syntax.OpStar, syntax.OpQuest, syntax.OpBeginLine, syntax.OpEndLine, syntax.OpBeginText, syntax.OpEndText, syntax.OpWordBoundary, syntax.OpNoWordBoundary:
+		return true
+	case syntax.OpLiteral:
+		return len(re.Rune) == 0
+	case syntax.OpCharClass, syntax.OpAnyChar, syntax.OpAnyCharNotNL:
+		return false
+	case syntax.OpPlus, syntax.OpCapture:
+		return nullable(re.Sub[0])
+	case syntax.OpRepeat:
+		return re.Min == 0 || nullable(re.Sub[0])
+	case syntax.OpConcat:
+		for _, s := range re.Sub {
+			if !nullable(s) {
+				return false
+			}
+		}
+		return true
+	case syntax.OpAlternate:
+		for _, s := range re.Sub {
+			if nullable(s) {
+				return true
+			}
+		}
+		return false
+	}
+	return true
 }
